@@ -41,7 +41,7 @@ pub fn main(tier: &str, seed: u64, n_override: Option<u64>) {
                 .b("nonsingular_path", all_ns).d("worst", worst).s("direct", &direct).s("class", &class).done());
             continue;
         }
-        let kind = [PoseKind::Reachable, PoseKind::Reachable, PoseKind::Sing0, PoseKind::Random][(idx % 4) as usize];
+        let kind = [PoseKind::Reachable, PoseKind::Reachable, PoseKind::Sing0, PoseKind::Random, PoseKind::NearSing][(idx % 5) as usize];
         let mut r = random_robot(&mut rng, idx, false, None);
         let (pose, origin) = make_pose(&mut rng, &r, kind);
         if idx % 2 == 0 { r.cons = Some(random_constraints(&mut rng, origin.as_ref())); }
